@@ -82,3 +82,49 @@ compute_score = Contract(
 )
 
 CONTRACTS = [compute_score]
+
+
+# --------------------------------------------------------- _maybe_report_result
+SettingT = Ty.SDict({"method": Ty.Key, "params": Ty.Key})
+RL = Ty.List(Ty.Real)
+KL = Ty.List(Ty.Key)
+HyperT = ObjT(
+    "HyperOptimizer",
+    {
+        "best_score": Ty.Real, "max_training_steps": Ty.Opt(Ty.Int),
+        "method_choices": KL, "param_choices": KL, "costs_flops": RL, "costs_write": RL, "costs_size": RL,
+        "scores": RL, "times": RL,
+    },
+)
+
+
+def grew(lst, val):
+    return (f"len(self.{lst}) == old(len(self.{lst})) + 1 and self.{lst}[len(self.{lst}) - 1] == {val}"
+            f" and forall(0, old(len(self.{lst})), lambda p: self.{lst}[p] == old(self.{lst})[p])")
+
+
+report = Contract(
+    target="cotengra.hyperoptimizers.hyper:HyperOptimizer._maybe_report_result",
+    props=["C08"],
+    self_type=HyperT,
+    params={"setting": SettingT, "trial": TrialT},
+    externals={"call:self._optimizer['report_result']": _none},
+    requires=[
+        "'score' in trial and 'flops' in trial and 'write' in trial and 'size' in trial and 'time' in trial",
+        "'method' in setting and 'params' in setting",
+        # the record lists are aligned on entry
+        "len(self.method_choices) == len(self.scores) and len(self.param_choices) == len(self.scores) and len(self.costs_flops) == len(self.scores)"
+        " and len(self.costs_write) == len(self.scores) and len(self.costs_size) == len(self.scores) and len(self.times) == len(self.scores)",
+    ],
+    modifies=["self.best_score", "self.method_choices", "self.param_choices", "self.costs_flops", "self.costs_write", "self.costs_size", "self.scores", "self.times"],
+    ensures=[
+        # exactly one record per trial, appended to every list together: the last
+        # method/params entry belongs to the trial just reported
+        grew("method_choices", "setting['method']"), grew("param_choices", "setting['params']"),
+        grew("costs_flops", "trial['flops']"), grew("costs_write", "trial['write']"), grew("costs_size", "trial['size']"),
+        grew("scores", "trial['score']"), grew("times", "trial['time']"),
+        "self.best_score == min(old(self.best_score), trial['score'])",
+    ],
+    assumptions=["the optimizer library's report_result callback does not touch the record lists"],
+)
+CONTRACTS.append(report)
